@@ -240,11 +240,13 @@ def run_dup(case, res):
 def run_nocancel(case, res):
     op = case["op"]
     F = instr.ME.futures
-    for decide_first in (True, False):
+    for decide_first, b_running in ((True, False), (False, False), (True, True), (False, True)):
         begin("rt")
         ctx = Ctx()
         try:
             a, b, c = SpyFuture("a"), SpyFuture("b"), SpyFuture("c")
+            if b_running:
+                b.set_running_or_notify_cancel()  # already running when it is shielded
             out = mk(op, [a, F.f_nocancel(b), c])
             if decide_first:
                 a.set_result(1 if op == "or" else 0)
@@ -255,7 +257,7 @@ def run_nocancel(case, res):
                 res.violation("nocancel-leak/%s" % op, "f_%s: cancel() reached an input wrapped in f_nocancel" % op)
             if not c.cancel_calls:
                 res.violation("losers-not-cancelled/%s" % op, "f_%s: pending input c received no cancel() after %s" % (op, "decision" if decide_first else "output cancel"))
-            res.key("nocancel", op, decide_first)
+            res.key("nocancel", op, decide_first, b_running)
         finally:
             end(ctx)
 
